@@ -13,7 +13,9 @@ RULE = (
     "associativities exists) and a well-formed stream (prefix* primary postfix*)(infix prefix* primary "
     "postfix*)* of at most 12 real Pair objects; the tree built by a PrattParser subclass with tuple-building "
     "hooks must consume the whole stream, have the stream as its in-order yield and satisfy the deep-"
-    "precedence predicate. A case is non-trivial when more than one tree has that yield (counted by DP), i.e. "
+    "precedence predicate; every case is run twice: in a direct subclass, and in a subclass of an already used "
+    "parser class that declared the flipped table (reversed precedence order, opposite associativity). "
+    "A case is non-trivial when more than one tree has that yield (counted by DP), i.e. "
     "precedence/associativity decides the shape; distinct by (table, stream)."
 )
 ASSUMPTIONS = [
